@@ -272,11 +272,55 @@ def finish_prog(body, ret, helpers=None, main="F", attr_defaults=None, rkinds=No
     return prog
 
 
+# ------------------------------------------------------------------------------------------------
+# literal pairs: two literals that are equal under == (or hash alike) in one program, in every pair of scopes
+# ------------------------------------------------------------------------------------------------
+
+LP_POOL = [0.0, -0.0, 0, 1, 1.0, -1, -1.0, 2.5, True]
+LP_CTX = ["top,top", "top,then", "then,then", "then,else", "top,loop", "loop,loop", "loop,top"]
+LP_OPS = ["*", "+"]
+
+
+def lp_driver():
+    """u = 1.0 / (x <op> L1); v = 1.0 / (x <op> L2) with the two statements placed in every pair of scopes:
+    1/(...) makes the sign of a zero operand observable (+-inf). A seeded defect reused the Constant of the first
+    literal for an equal-comparing second one within a graph scope (0.0 vs -0.0)."""
+    def drive(ch):
+        l1 = ch.all("l1", LP_POOL)
+        l2 = ch.all("l2", LP_POOL)
+        op = ch.all("op", LP_OPS)
+        ctx = ch.all("ctx", LP_CTX)
+        s1 = ["assign", "u", ["bin", "/", L(1.0), ["bin", op, V("x"), lit_expr(l1)]]]
+        s2 = ["assign", "v", ["bin", "/", L(1.0), ["bin", op, V("x"), lit_expr(l2)]]]
+        init = [["assign", "u", V("x")], ["assign", "v", V("x")]]
+        a, b = ctx.split(",")
+        cond = ["bin", ">", V("k"), L(1)]
+        if (a, b) == ("top", "top"):
+            body = [s1, s2]
+        elif (a, b) == ("top", "then"):
+            body = [init[1], s1, ["if", cond, [s2], [["assign", "v", ["bin", "+", V("v"), L(3)]]]]]
+        elif (a, b) == ("then", "then"):
+            body = init + [["if", cond, [s1, s2], [["assign", "u", ["bin", "+", V("u"), L(3)]]]]]
+        elif (a, b) == ("then", "else"):
+            body = init + [["if", cond, [s1], [s2]]]
+        elif (a, b) == ("top", "loop"):
+            body = [init[1], s1, ["for", "i", V("k"), [s2], None]]
+        elif (a, b) == ("loop", "loop"):
+            body = init + [["for", "i", V("k"), [s1, s2], None]]
+        else:
+            body = [init[0], ["for", "i", V("k"), [s1], None], s2]
+        prog = finish_prog(body, [V("u"), V("v")])
+        prog["xs"] = [[1.0, -2.0, 0.0, -0.0]]
+        return {"sub": "df", "prog": prog}
+
+    return drive
+
+
 def df_valuations(prog, tier):
     """Fixed pool: all (k, b, n, flag) combinations over the parameters the program has."""
     pn = [p[0] for p in prog["params"]]
     an = [a[0] for a in prog["attrs"]]
-    xs = [np.array([1.0, -2.5, 0.0], dtype=np.float32)]
+    xs = [np.array(v, dtype=np.float32) for v in prog.get("xs", [[1.0, -2.5, 0.0]])]
     ks = [0, 1, 3] if "k" in pn else [None]
     bs = [False, True] if "b" in pn else [None]
     ns = [None, 0, 3] if "n" in an else [None]
@@ -676,12 +720,14 @@ def enumerate_plan(tier, stats):
         # needed an if inside a while body together with a non-default return list
         fams.append(("df-mini-s4-d2-periph1", df_driver(DFConfig(size=4, depth=2, alphabet="mini", kinds=["if", "for", "while"])), 1))
         fams.append(("op-b1", op_driver(), 1))
+        fams.append(("lit-pairs", lp_driver(), 0))
     else:
         fams.append(("df-full-s2-periph1", df_driver(DFConfig(size=2, depth=1)), 1))
         fams.append(("df-full-s3-periph1", df_driver(DFConfig(size=3, depth=2, kinds=nowb, ivar_after=False)), 1))
         fams.append(("df-full-s4", df_driver(DFConfig(size=4, depth=2, kinds=nowb)), 0))
         fams.append(("df-reduced-s5", df_driver(DFConfig(size=5, depth=2, alphabet="reduced", kinds=["if", "for", "while"])), 0))
         fams.append(("op-b2", op_driver(), 2))
+        fams.append(("lit-pairs", lp_driver(), 0))
     import os
     only = os.environ.get("VERIF_C01_FAMS")
     if only:
